@@ -170,3 +170,27 @@ Theorem C20_controls_no_injection : forall c,
                              /\ incl (attrnames_of n) (vocabulary_attrs ++ control_attrs).
 Proof. exact ctl_no_injection. Qed.
 Print Assumptions C20_controls_no_injection.
+
+(* Escape is blind and applied exactly once.  It leaves a string alone only when none of the five characters occurs (so text that
+   already looks like a character reference gets its ampersand escaped again); escaping twice never equals escaping once unless
+   nothing had to be escaped; it works character by character, whatever surrounds a character. *)
+Theorem C20_escape_fixpoint_iff : forall s, escape s = s <-> forallb (fun c => negb (is_special c)) s = true.
+Proof. exact escape_fixpoint_iff. Qed.
+Print Assumptions C20_escape_fixpoint_iff.
+
+Theorem C20_escape_twice : forall s, escape (escape s) = escape s -> escape s = s.
+Proof. exact escape_twice. Qed.
+Print Assumptions C20_escape_twice.
+
+Theorem C20_escape_compositional : forall a b, escape (a ++ b) = escape a ++ escape b.
+Proof. exact escape_app. Qed.
+Print Assumptions C20_escape_compositional.
+
+(* On every data path of the tree view escape is applied exactly once: after the parser has undone one escape, every text node and
+   every attribute value of the output is the data the view placed there. *)
+Theorem C20_escape_exactly_once : forall o v,
+  exists d, parse_html (render (tree_view o v)) = Some d /\
+            flat_map texts_of d = filter nonempty (texts_of (tree_view o v)) /\
+            flat_map attr_pairs_of d = attr_pairs_of (tree_view o v).
+Proof. exact tree_view_escape_exactly_once. Qed.
+Print Assumptions C20_escape_exactly_once.
